@@ -9,7 +9,7 @@ import (
 func init() { register("C08", propC08) }
 
 func propC08(c *Ctx) {
-	c.Explanation = "Decides structural necessary conditions of IPv4 reassembly for all inputs and schedules: (F1) Fragmentation.{reassemblers,rList,size} and reassembler.{holes,deleted,heap,done,size} are accessed only under their mutexes and lookup-or-create of the reassembler is one critical section; (F2) a fragment is stored only when it filled part of a hole, the datagram is handed up (done) only when every hole is deleted and the heap reassembled without error, and a failed reassembly drops the datagram instead of panicking; (F3) an existing reassembler is reused only when it is not older than the timeout; (F4) the reassembly key is computed from all four of identification, protocol, source and destination, and ipv4.HandlePacket passes first = fragment offset, last = offset + payload size - 1, more = MF bit, taking the fragment path exactly when MF is set or the offset is non-zero; (F5) memory accounting moves with the stored bytes; (F6) RFC 815 hole bookkeeping in updateHoles: the exact site table (which hole is deleted under which overlap condition, which remainder holes are created with which bounds) and (F7) reassemble: fragments are merged in heap (offset) order, every popped fragment is either appended (after trimming exactly the overlap size-offset) or the whole reassembly fails on a gap - no fragment is skipped. (F9) link typestate of the reassembler list; F6 also tables the reassembler's initial hole 0..65535. (F10) the fragment heap's container/heap implementation over the fragment offset. (F11) the reassembler LRU list is a correct doubly-linked list; F4 also requires Hash3Words to depend on all three key words; F2 tables tooOld. (F12) the fragment fields are read from exactly the RFC 791/8200 bits (bit-provenance, shared with C15/B1). (F13) a fresh reassembler is aged from now with an empty heap, and the remainders of a split hole are stored back into the live hole list. (F14) a fragment is cut at exactly its IP length before it is stored (shared with C16/V2); F10 also requires that Push stores and Pop removes on every way out. (F15) package fragmentation narrows nothing and ipv4 only at the reviewed places. NOT decided: the algebra of the hole list over all fragment sequences (that the bookkeeping is sufficient), 32-bit key collisions between datagrams."
+	c.Explanation = "Decides structural necessary conditions of IPv4 reassembly for all inputs and schedules: (F1) Fragmentation.{reassemblers,rList,size} and reassembler.{holes,deleted,heap,done,size} are accessed only under their mutexes and lookup-or-create of the reassembler is one critical section; (F2) a fragment is stored only when it filled part of a hole, the datagram is handed up (done) only when every hole is deleted and the heap reassembled without error, and a failed reassembly drops the datagram instead of panicking; (F3) an existing reassembler is reused only when it is not older than the timeout; (F4) the reassembly key is computed from all four of identification, protocol, source and destination, and ipv4.HandlePacket passes first = fragment offset, last = offset + payload size - 1, more = MF bit, taking the fragment path exactly when MF is set or the offset is non-zero; (F5) memory accounting moves with the stored bytes; (F6) RFC 815 hole bookkeeping in updateHoles: the exact site table (which hole is deleted under which overlap condition, which remainder holes are created with which bounds) and (F7) reassemble: fragments are merged in heap (offset) order, every popped fragment is either appended (after trimming exactly the overlap size-offset) or the whole reassembly fails on a gap - no fragment is skipped. (F9) link typestate of the reassembler list; F6 also tables the reassembler's initial hole 0..65535. (F10) the fragment heap's container/heap implementation over the fragment offset. (F11) the reassembler LRU list is a correct doubly-linked list; F4 also requires Hash3Words to depend on all three key words; F2 tables tooOld. (F12) the fragment fields are read from exactly the RFC 791/8200 bits (bit-provenance, shared with C15/B1). (F13) a fresh reassembler is aged from now with an empty heap, and the remainders of a split hole are stored back into the live hole list. (F14) a fragment is cut at exactly its IP length before it is stored (shared with C16/V2); F10 also requires that Push stores and Pop removes on every way out. (F15) package fragmentation narrows nothing and ipv4 only at the reviewed places. (F16) VectorisedView.TrimFront, with which the reassembly loop cuts the overlapping front of a fragment, removes exactly the requested bytes however many chunks they span (shared with C16/V2). NOT decided: the algebra of the hole list over all fragment sequences (that the bookkeeping is sufficient), 32-bit key collisions between datagrams."
 	c.Assumptions = []string{"container/heap orders by fragHeap.Less", "reassembler.size is only read by release after checkDoneOrMark, which is a barrier on reassembler.mu (exception with reason)"}
 	fr := "(*fragmentation.reassembler)."
 	f12 := c.Rule("F12", "K9 bitprov (shared with C15/B1)", "the fragment fields (IPv4 IHL, total length, id, flags, fragment offset, protocol; IPv6 fragment header) are read from exactly the RFC 791/8200 bits", 9)
@@ -21,6 +21,7 @@ func propC08(c *Ctx) {
 	})
 	reassemblerStateRule(c, c.Rule("F13", "K7 exact-guard site tables", "a fresh reassembler is aged from now with an empty heap; hole remainders are stored back into the live list", 4))
 	vvCapLengthRule(c, c.Rule("F14", "K7 exact-guard site table (shared with C16/V2)", "a fragment is cut at exactly its IP length before it is stored", 4))
+	vvTrimFrontRule(c, c.Rule("F16", "K7 exact-guard site tables (shared with C16/V2)", "the overlap cut off a fragment during reassembly is exactly the requested number of bytes, however many chunks it spans", 5))
 	c.NoNewNarrowing(c.Rule("F15", "K8 narrowing (closed world, reviewed table)", "fragment offsets and lengths: package fragmentation narrows nothing, ipv4 only at the reviewed places", 5), []string{"/network/fragmentation", "/network/ipv4", "/network/hash"}, narrowIP)
 	f1 := c.Rule("F1", "K4 lockset", "fragmentation state only under its mutexes", 30)
 	c.Locks().CheckGuards(c, f1, guardsFrag, []Exception{
